@@ -3,9 +3,9 @@ CONSTANTS
   MaxN = 6
   MaxKey = 6
   MaxMods = 3
-  FixShort = TRUE
+  FixShort = FALSE
   FixMid = TRUE
-  Tasks = {"fptr"}
+  Tasks = {"uniq"}
   DbInputs <- MCDbInputs
 INVARIANT NoAbort
 INVARIANT StepBound
@@ -13,5 +13,4 @@ INVARIANT UniqExact
 INVARIANT FptrExact
 INVARIANT DbTotalAndExact
 PROPERTY Terminates
-CONSTRAINT DumpConstraint
 CHECK_DEADLOCK FALSE
